@@ -5,14 +5,14 @@ import common as C
 import scen
 
 HEADER = ('From J1939 Require Import Base CodecGlue Model21.\nFrom J1939.gen Require Import Codec Tp21Gen CaGen.\n'
-          'From J1939P Require Import Flat Net21.\nOpen Scope Z_scope.\nSet Warnings "-abstract-large-number".\n'
+          'From J1939P Require Import Flat Net21 Net21Bam.\nOpen Scope Z_scope.\nSet Warnings "-abstract-large-number".\n'
           'Definition fl (f : frame) : list Z := f_id f :: f_data f.\n'
           'Definition ol (o : out) : list Z := match o with OCb cid prio pgn sa d => cid :: prio :: pgn :: sa :: d | _ => [-1] end.\n'
           'Definition obs (s : net) : list (list Z) :=\n'
           '  map fl (wab s) ++ [[-2]] ++ map fl (wba s) ++ [[-2]] ++ map ol (evb s) ++ [[-2]] ++\n'
           '  [[if quiet s then 1 else 0]].\n')
 HEADER22 = ('From J1939 Require Import Base CodecGlue Model21 Model22.\nFrom J1939.gen Require Import Codec Tp21Gen CaGen Tp22Gen.\n'
-            'From J1939P Require Import Flat MpgProofs Net21 Net22.\nOpen Scope Z_scope.\nSet Warnings "-abstract-large-number".\n'
+            'From J1939P Require Import Flat MpgProofs Net21 Net22 Net22Bam.\nOpen Scope Z_scope.\nSet Warnings "-abstract-large-number".\n'
             'Definition fl (f : frame) : list Z := f_id f :: f_data f.\n'
             'Definition ol (o : out) : list Z := match o with OCb cid prio pgn sa d => cid :: prio :: pgn :: sa :: d | _ => [-1] end.\n'
             'Definition obs (s : net22) : list (list Z) :=\n'
@@ -28,7 +28,7 @@ def gen_case(rng, k, big, only=None):
         n = rng.randint(9, 80)
     sa, da = rng.sample(range(0, 254), 2)
     pf = rng.choice([x for x in range(0, 240) if x not in (0xEA, 0xEB, 0xEC, 0xEE, 0x4D, 0x4E, 0x25)])
-    fd = (rng.random() < 0.3) if only is None else (only == 'fd')      # the FD network model (Net22.v) against two real FD stacks
+    fd = (rng.random() < 0.3) if only is None else (only in ('fd', 'bamfd'))      # the FD network model (Net22.v) against two real FD stacks
     if fd:
         n = rng.choice([61, 89, 105, 119, 120, 121, 180, 181]) if rng.random() < 0.4 else rng.randint(61, 1500 if big else 400)
     if not fd and rng.random() < 0.3:
@@ -37,7 +37,14 @@ def gen_case(rng, k, big, only=None):
             n = rng.randint(9, 120)
     if fd and rng.random() < 0.35:
         da = 255                      # FD broadcast: theorem C02_bam_closed_loop_delivers
-    return dict(n=n, sa=sa, da=da, pf=pf, dp=rng.choice([0, 0, 1]), prio=rng.randint(0, 7),
+    biv = None
+    if only in ('bam21', 'bamfd'):
+        # broadcasts only, with a configured packet interval in half the cases (theorems C09_*_closed_loop_paced)
+        da = 255
+        if not fd and n > 400:
+            n = rng.randint(9, 120)
+        biv = rng.choice([None, None, 0.01, 0.02, 0.05, 0.1, 0.19])
+    return dict(biv=biv, n=n, sa=sa, da=da, pf=pf, dp=rng.choice([0, 0, 1]), prio=rng.randint(0, 7),
                 wa=rng.choice(WINDOWS + [rng.randint(1, 255)]), wb=rng.choice(WINDOWS + [rng.randint(1, 255)]),
                 lat=rng.choice([1, 500]), seed=rng.getrandbits(30), fnone=rng.random() < 0.3, fd=fd)
 
@@ -45,12 +52,12 @@ def gen_case(rng, k, big, only=None):
 def scenario(c):
     subs_b = [dict(cid=7, filt=(c['da'] if c['da'] != 255 else (c['sa'] + 1) % 254))] + ([dict(cid=9, filt=None)] if c['fnone'] else [])
     dll = 'j1939-22' if c.get('fd') else 'j1939-21'
-    stacks = [dict(dll=dll, max_cmdt=c['wa'], subs=[dict(cid=1, filt=c['sa'])], cas=[]),
+    stacks = [dict(dll=dll, max_cmdt=c['wa'], bam_iv=c.get('biv'), subs=[dict(cid=1, filt=c['sa'])], cas=[]),
               dict(dll=dll, max_cmdt=c['wb'], subs=subs_b, cas=[])]
     npk = (c['n'] + 6) // 7
     script = [dict(t=1000, s=0, op='send', a=[c['dp'], c['pf'], c['da'], c['prio'], c['sa'], dict(seed=c['seed'], len=c['n'])])]
     return dict(stacks=stacks, lat=[c['lat']], jit=[1], script=script,
-                horizon=1000 + npk * (60000 if c['da'] == 255 else 12000) + 3_000_000)
+                horizon=1000 + npk * (int((c.get('biv') or 0.05) * 1e6) + 10000 if c['da'] == 255 else 12000) + 3_000_000)
 
 
 def observe_impl(sc, res):
@@ -65,27 +72,31 @@ def observe_impl(sc, res):
 
 
 def model_text(c, data):
+    biv = 'None' if c.get('biv') is None else '(Some %d)' % int(round(c['biv'] * 1e6))
     if c.get('fd'):
-        a = 'sub22 (init_node22 %d None None) 1 (FAddr %d)' % (c['wa'], c['sa'])
+        a = 'sub22 (init_node22 %d None %s) 1 (FAddr %d)' % (c['wa'], biv, c['sa'])
         b = 'sub22 (init_node22 %d None None) 7 (FAddr %d)' % (c['wb'], c['da'] if c['da'] != 255 else (c['sa'] + 1) % 254)
         if c['fnone']:
             b = 'sub22 (%s) 9 FNone' % b
         nseg = (c['n'] + 59) // 60
-        return ('obs (steps22 %d%%nat (net22_send (net22_0 (%s) (%s) 1000) %d %d %d %d %d %s))'
-                % (3 * nseg + 14, a, b, c['dp'], c['pf'], c['da'], c['prio'], c['sa'], C.zl(data)))
-    a = 'subscribe (init_node %d None None) 1 (FAddr %d)' % (c['wa'], c['sa'])
+        s0 = '(net22_send (net22_0 (%s) (%s) 1000) %d %d %d %d %d %s)' % (a, b, c['dp'], c['pf'], c['da'], c['prio'], c['sa'], C.zl(data))
+        timed = ' ++ [[-3]] ++ [map fst (tlog22 %d%%nat %s)]' % (3 * nseg + 14, s0) if c['da'] == 255 else ''
+        return 'obs (steps22 %d%%nat %s)%s' % (3 * nseg + 14, s0, timed)
+    a = 'subscribe (init_node %d None %s) 1 (FAddr %d)' % (c['wa'], biv, c['sa'])
     b = 'subscribe (init_node %d None None) 7 (FAddr %d)' % (c['wb'], c['da'] if c['da'] != 255 else (c['sa'] + 1) % 254)
     if c['fnone']:
         b = 'subscribe (%s) 9 FNone' % b
     npk = (c['n'] + 6) // 7
     fuel = 3 * npk + 12
-    return ('obs (steps %d%%nat (net_send (net0 (%s) (%s) 1000) %d %d %d %d %d %s))'
-            % (fuel, a, b, c['dp'], c['pf'], c['da'], c['prio'], c['sa'], C.zl(data)))
+    s0 = '(net_send (net0 (%s) (%s) 1000) %d %d %d %d %d %s)' % (a, b, c['dp'], c['pf'], c['da'], c['prio'], c['sa'], C.zl(data))
+    # broadcasts: the model's time of every frame after the announcement (theorems C09_bam_closed_loop_paced / C09_fd_...)
+    timed = ' ++ [[-3]] ++ [map fst (tlog %d%%nat %s)]' % (fuel, s0) if c['da'] == 255 else ''
+    return 'obs (steps %d%%nat %s)%s' % (fuel, s0, timed)
 
 
 def run(work, rng, n, big=False, tag='net', only=None):
     """returns (cases, mismatches[(case, model_obs, impl_obs)], errors, oracle_failures[(case, scenario, what)])"""
-    cases, files = [], []
+    cases, files, res_tx = [], [], {}
     for k in range(n):
         c = gen_case(rng, k, big, only)
         sc = scenario(c)
@@ -93,6 +104,7 @@ def run(work, rng, n, big=False, tag='net', only=None):
         data = list(scen.payload(sc['script'][0]['a'][5]))
         impl = observe_impl(sc, res)
         cases.append((c, sc, impl, data))
+        res_tx['%s_%d' % (tag, k)] = [e for e in res.trace if e[2] == 'tx' and e[1] == 0]
         files.append(('%s_%d' % (tag, k), (HEADER22 if c.get('fd') else HEADER) + 'Eval vm_compute in %s.\n' % model_text(c, data)))
     out = C.run_many_cases(work, files, timeout=300, par=12)
     mism, errors, bad = [], [], []
@@ -111,6 +123,17 @@ def run(work, rng, n, big=False, tag='net', only=None):
         if got is None:
             errors.append((name, 'unparsable: ' + o[-300:]))
             continue
+        if [-3] in got:
+            # timed part: frame k+1 of A left, on the implementation, no earlier than the model's time for it and no later
+            # than that plus the scheduling jitter accumulated over k+1 wake-ups
+            stamps = got[got.index([-3]) + 1]
+            got = got[:got.index([-3])]
+            J = max(sc['jit'])
+            txt = [e[0] for e in res_tx[name]][1:]
+            late = [(k, m, t) for k, (m, t) in enumerate(zip(stamps, txt)) if not (0 <= t - m <= (k + 1) * (J + 1))]
+            if len(stamps) != len(txt) or late:
+                mism.append((c, 'timed', stamps[:8], txt[:8]))
+                continue
         if got != impl:
             i = next((j for j in range(max(len(got), len(impl))) if j >= len(got) or j >= len(impl) or got[j] != impl[j]), None)
             mism.append((c, i, got[i] if i is not None and i < len(got) else None, impl[i] if i is not None and i < len(impl) else None))
